@@ -113,8 +113,8 @@ func runC02(c *Ctx) {
 	checkPartsAlias(c, "R02l")
 	c.Rule("R02r", ruleTextMatchedMarked, 2)
 	checkMatchedMarked(c, "R02r")
-	c.Rule("R02s", ruleTextNormaliseOwnSide, 2)
-	checkNormaliseOwnSide(c, "R02s")
+	c.Rule("R02u", ruleTextNormaliseOwnSide, 2)
+	checkNormaliseOwnSide(c, "R02u")
 	c.Rule("R02t", ruleTextTrimSelfCutset, 1)
 	checkTrimSelfCutset(c, "R02t")
 	c.Rule("R02s", ruleTextBothParamsUsed, 20)
